@@ -65,8 +65,27 @@ def paths(ds):
         'misses the model': [(x1 + 1.0, y0), (x1 + 2.0, y1)],
         'vertical, reversed': [(cx + 0.03 * w, y1 + 0.2), (cx + 0.031 * w, y0 - 0.2)],
         'heading north': [(cx + 0.03 * w, y0 - 0.04 * h), (cx + 0.032 * w, y1 + 0.04 * h)],
+        **_shared_edge_paths(polys),
         'heading north from inside': [(cx - 0.13 * w, y0 + 0.03 * h), (cx - 0.128 * w, y1 - 0.02 * h)],
     }
+
+
+def _shared_edge_paths(polys):
+    """paths that run exactly along an edge shared by two cells (GEOS hands such pieces back in ring direction, not path direction),
+    in both directions, and a bent path with one leg on a shared edge"""
+    out = {}
+    for a_i, a in enumerate(polys):
+        ea = list(zip(a.exterior.coords[:-1], a.exterior.coords[1:]))
+        for b in polys[a_i + 1:]:
+            eb = {frozenset(e) for e in zip(b.exterior.coords[:-1], b.exterior.coords[1:])}
+            for p, q in ea:
+                if frozenset((p, q)) in eb:
+                    ext = lambda u, v, t: (u[0] + (v[0] - u[0]) * t, u[1] + (v[1] - u[1]) * t)
+                    out['along a shared edge'] = [ext(p, q, -0.7), ext(p, q, 1.6)]
+                    out['along a shared edge, reversed'] = [ext(p, q, 1.6), ext(p, q, -0.7)]
+                    out['bent, one leg on a shared edge'] = [ext(p, q, -0.4), ext(p, q, 1.0), (q[0] + 0.37 * (q[1] - p[1]) + 0.11, q[1] - 0.37 * (q[0] - p[0]) + 0.23)]
+                    return out
+    return out
 
 
 def gen(tier, seed):
@@ -170,6 +189,8 @@ def test(inp):
 
 
 def key(inp, detail):
+    if 'shared edge' in inp['path'] and detail.startswith('the segment lengths add up to'):
+        return 'transect:shared-edge-counted-once-per-neighbour'
     return f"transect:{inp['spec']['conv']}:{detail.split(':')[0][:50]}"
 
 
